@@ -201,6 +201,27 @@ func checkC27(r *Run) {
 		req("signature equals HMAC(secret, payload)", "base64.Encoding.EncodeToString(base64.RawURLEncoding, iface:hash.Hash.Sum(hmac.New(sha256.New, api.csrfSecretKey), nil)) == "+tp+"[1]"),
 		req("payload parses", "ok(json.Unmarshal(*))"),
 		req("not expired", "!time.Time.After(time.Now(), *ExpiresAt)"))
+	// the Host check is armed for every loopback bind: IsLocalhost is the standard loopback predicate or the name
+	if fn := r.fn("C27-R2", "util/iputil.IsLocalhost"); fn != nil {
+		ff := r.P.Facts(fn)
+		okT, okF := false, false
+		n := 0
+		for _, e := range ff.Exits() {
+			n++
+			var fs []string
+			for _, a := range ff.Must(e.Block) {
+				fs = append(fs, a.S)
+			}
+			fs = append(fs, e.Extra...)
+			switch e.Desc {
+			case "true":
+				_, okT = matchAny([]string{"net.IP.IsLoopback(net.ParseIP($0))"}, fs)
+			case "($0 == \"localhost\")":
+				_, okF = matchAny([]string{"!net.IP.IsLoopback(net.ParseIP($0))"}, fs)
+			}
+		}
+		r.Check("C27-R2", "util/iputil.IsLocalhost: true for every loopback address (net.IP.IsLoopback), otherwise only for the name localhost", r.P.Pos(fn.Pos()), okT && okF && n == 2, fmt.Sprint(n, okT, okF))
+	}
 	// the set of enabled API sets is built from the option values under the same normalisation the option
 	// validator applied to them: a name that was accepted is the name that is inserted / deleted
 	if vf, bf := r.fn("C27-R2", "skycoin.validateAPISets"), r.fn("C27-R2", "skycoin.buildAPISets"); vf != nil && bf != nil {
